@@ -5427,7 +5427,9 @@ class Arc(Curve):
         self.end = end
         rx = abs(rx)
         ry = abs(ry)
-        if start == end or rx == 0 or ry == 0:
+        rx_sq = rx * rx
+        ry_sq = ry * ry
+        if start == end or rx_sq == 0 or ry_sq == 0:
             # If start is equal to end, there are infinite number of circles so these void out.
             # We still permit this kind of arc, but SVG parameterization cannot be used to achieve it.
             self.sweep = 0
@@ -5443,9 +5445,6 @@ class Arc(Curve):
         x1prim_sq = x1prim * x1prim
         y1prim = -sinr * dx + cosr * dy
         y1prim_sq = y1prim * y1prim
-
-        rx_sq = rx * rx
-        ry_sq = ry * ry
 
         # Correct out of range radii
         radius_check = (x1prim_sq / rx_sq) + (y1prim_sq / ry_sq)
